@@ -1,4 +1,5 @@
 import BlochVerif.Eval.Model
+import BlochVerif.Eval.Draws
 /-!
 # C18 — shots are isolated
 
@@ -110,5 +111,20 @@ example : analyse ⟨-1, some (some 3)⟩ = some ⟨3, some (some 3)⟩ ∧ exec
   decide
 /-- without analysis the write-back does fire: the hypothesis of `writeback_inert` is needed -/
 example : execDecl ⟨-1, some (some 3)⟩ 99 = ⟨99, some (some 3)⟩ := by decide
+
+end BlochVerif.Props.C18
+
+/-! ## the randomness a shot consumes is accounted for -/
+namespace BlochVerif.Props.C18
+open BlochVerif BlochVerif.Eval BlochVerif.Parse
+
+/-- **Whatever a program does**, the draws a successful run consumes are taken from the front of its own list, one for each
+measurement or reset record it adds and none otherwise: a shot cannot consume randomness without recording an outcome, record
+an outcome without consuming a draw, or reach into another shot's draws (induction principle of the evaluator model,
+`Eval/Draws.lean`).  The forced-draw correspondence runs rely on exactly this alignment. -/
+theorem a_run_consumes_one_draw_per_recorded_outcome (fuel : Nat) (fn : FuncDecl) (args : List Value)
+    (st st' : EState) (v : Value) (h : (call fuel fn args).run st = .ok (v, st')) :
+    ∃ k pre, st'.draws = st.draws.drop k ∧ st'.outcomes = pre ++ st.outcomes ∧ pre.length = k :=
+  call_pairs_draws_with_outcomes fuel fn args st st' v h
 
 end BlochVerif.Props.C18
